@@ -43,8 +43,12 @@ def run(ctx, repo, tier):
             ctx.inconclusive("PAIRIO", f"C20.io.{name}.getter", "stored value is not a FullGrid getter result", fi.where, src(rec["call"])[:160])
             continue
         label = W.LABEL_OF_GETTER[g]
-        ctx.check(rec["direct"] and not rec["kwargs"], "PAIRIO", f"C20.io.{name}.direct", f"{name} stores the direct, unmodified result of "
-                  f"FullGrid.{g}()", fi.where, src(rec["call"])[:160], witness="value is post-processed or the getter is called with options")
+        if rec["direct"] is None:
+            ctx.inconclusive("PAIRIO", f"C20.io.{name}.direct", "the getter result passes through a wrapper that is not recognised", fi.where,
+                             src(rec["call"])[:160])
+        else:
+            ctx.check(rec["direct"] and not rec["kwargs"], "PAIRIO", f"C20.io.{name}.direct", f"{name} stores the direct, unmodified result of "
+                      f"FullGrid.{g}()", fi.where, src(rec["call"])[:160], witness="value is post-processed or the getter is called with options")
         ctx.check(rec["family"] == W.EXPECTED_FAMILY[label], "PAIRIO", f"C20.io.{name}.saver", f"{label.lower()} is written with the "
                   f"{'dense array' if W.EXPECTED_FAMILY[label] == 'npy' else 'sparse matrix'} saver", fi.where, src(rec["call"])[:120], witness=rec["family"])
         ctx.check(rec["path_ok"], "PAIRIO", f"C20.io.{name}.path", "the file written is the method's path argument", fi.where, src(rec["call"])[:120], witness="path is not the parameter")
@@ -89,6 +93,10 @@ def run(ctx, repo, tier):
             ctx.inconclusive("PAIRIO", f"C20.run_grid.{key}", "stored value is not a FullGrid getter result", where, src(rec["call"])[:160])
             continue
         ok = W.LABEL_OF_GETTER[g] == label and rec["direct"] and not rec["kwargs"] and rec["family"] == W.EXPECTED_FAMILY[label]
+        if rec["direct"] is None and W.LABEL_OF_GETTER[g] == label and rec["family"] == W.EXPECTED_FAMILY[label]:
+            ctx.inconclusive("PAIRIO", f"C20.run_grid.{key}", "the getter result passes through a wrapper that is not recognised", where,
+                             src(rec["call"])[:160])
+            continue
         ctx.check(ok, "PAIRIO", f"C20.run_grid.{key}", f"output.{key} receives the direct result of the {label.lower()} getter through the "
                   "matching saver", where, src(rec["call"])[:160],
                   witness=f"getter {g}, direct={rec['direct']}, options={sorted(rec['kwargs'])}, saver {rec['family']}")
